@@ -6,7 +6,7 @@ attested time and now; grafted countersignature) on relic's real chain validatio
 import json, os
 from vlib.common import *
 
-NEG = ["NoNonceCheck", "NoImprintCheck", "AcceptRejected", "NoTokenSigCheck", "FirstFailAborts", "OmitOnFailure", "CacheSkipsSelfCheck"]
+NEG = ["NoNonceCheck", "NoImprintCheck", "AcceptRejected", "NoTokenSigCheck", "FirstFailAborts", "OmitOnFailure", "CacheSkipsSelfCheck", "RememberPosition"]
 
 
 def _feed(run, vh, sub, behs, label, extra=None):
